@@ -133,7 +133,9 @@ def mkMul (a b : Expr) : R Expr :=
 /-- `__floordiv__`, `ceil_div`, `__mod__` (`k` one of the three division-like kinds) -/
 def mkDiv (k : Kind) (a b : Expr) : R Expr :=
   match a, b with
-  | .const x, .const y => foldConst k x y
+  | .const x, .const y =>
+    -- `_try_fold_constant` leaves division and remainder by zero unfolded (the expression is kept)
+    if y = 0 then pure (.bin k (.const x) (.const y)) else foldConst k x y
   | a, .const y => pure (.bin k a (.const y))
   | _, _ => throw .notImplemented
 
